@@ -192,7 +192,17 @@ class InitFlow:
             run(self.frames[0])
         return out
 
-    def _apply_params_stmt(self, fr: Frame, st: ast.stmt, items: dict) -> None:
+    def _apply_params_stmt(self, fr: Frame, st: ast.stmt, items: dict, _depth: int = 0) -> None:
+        # a private helper of the class called from the constructor (self._drop_alpha()) is executed in place
+        if _depth < 3:
+            for c in [x for x in walk_no_nested(st) if isinstance(x, ast.Call)]:
+                f = c.func
+                if isinstance(f, ast.Attribute) and isinstance(f.value, ast.Name) and f.value.id == "self" and f.attr != "__init__" and f.attr.startswith("_"):
+                    m = self.cls.resolve(f.attr)
+                    if m is not None and any(isinstance(x, ast.Attribute) and x.attr == "_params" for x in ast.walk(m.node)):
+                        hf = Frame(m, self.cls, {}, fr, c, False)
+                        for hst in m.node.body:
+                            self._apply_params_stmt(hf, hst, items, _depth + 1)
         for n in walk_no_nested(st):
             if isinstance(n, ast.Assign):
                 for t in n.targets:
